@@ -63,7 +63,9 @@ def merge_cases(draw, max_chroms=3, max_bins=5):
             "agg_count": agg_count, "agg_x": agg_x, "mergebuf": draw(st.sampled_from([1, 2, 3, 7, 50, 10**6])),
             "order": list(draw(st.permutations(leaves))), "tree": tree,
             "count_dtypes": count_dtypes, "via": draw(st.sampled_from(["api", "api", "cli"])),
-            "support": support}
+            "support": support,
+            # where the inputs live: one file each, or all as groups of ONE file (as the chunks of an unordered load do)
+            "same_file": draw(st.integers(0, 3)) == 0}
 
 
 def _make_inputs(ctx, case, work):
@@ -71,9 +73,10 @@ def _make_inputs(ctx, case, work):
 
     uris = []
     for t, rows in enumerate(case["inputs"]):
-        p = os.path.join(work, f"in{t}.cool")
+        p = os.path.join(work, "ins.cool") + f"::/g{t}" if case.get("same_file") else os.path.join(work, f"in{t}.cool")
         call("create input", create_from_model, p, case["bt"], rows, case["symmetric"], cols=("count", "x"),
-             dtypes={"count": np.dtype(case["count_dtypes"][t])}, h5opts={"compression": None})
+             dtypes={"count": np.dtype(case["count_dtypes"][t])}, h5opts={"compression": None},
+             **({"mode": "a"} if case.get("same_file") else {}))
         uris.append(p)
     return uris
 
@@ -215,7 +218,8 @@ def incompatible_cases(draw):
             symB = False
     return {"part": "incompatible", "kind": kind, "A": A, "B": B, "symA": symA, "symB": symB,
             "swap": draw(st.booleans()), "existing": draw(st.booleans()),
-            "n_inputs": draw(st.integers(2, 4)), "pos": draw(st.integers(0, 3))}
+            "n_inputs": draw(st.integers(2, 4)), "pos": draw(st.integers(0, 3)),
+            "same_file": draw(st.integers(0, 2)) == 0}
 
 
 def check_incompatible(case, ctx: Ctx):
@@ -226,12 +230,17 @@ def check_incompatible(case, ctx: Ctx):
     work = ctx.tmpdir()
     try:
         pa, pb = os.path.join(work, "a.cool"), os.path.join(work, "b.cool")
+        mk = {}
+        if case.get("same_file"):
+            # both inputs are collections of one file
+            pa, pb = os.path.join(work, "ab.cool::/a"), os.path.join(work, "ab.cool::/deeper/b")
+            mk = {"mode": "a"}
         nA, nB = gen.n_bins(case["A"]), gen.n_bins(case["B"])
         rowsA = [[0, nA - 1, 3, 1.0]] if case["symA"] else [[nA - 1, 0, 3, 1.0]]
         rowsB = [[0, nB - 1, 5, 2.0]]
         colsB = ("count",) if case["kind"] == "missing-column" else ("count", "x")
-        call("create A", create_from_model, pa, case["A"], rowsA, case["symA"], cols=("count", "x"))
-        call("create B", create_from_model, pb, case["B"], [r[: 2 + len(colsB)] for r in rowsB], case["symB"], cols=colsB)
+        call("create A", create_from_model, pa, case["A"], rowsA, case["symA"], cols=("count", "x"), **mk)
+        call("create B", create_from_model, pb, case["B"], [r[: 2 + len(colsB)] for r in rowsB], case["symB"], cols=colsB, **mk)
         out = os.path.join(work, "out.cool")
         dest = out + ("::/m" if case["existing"] else "")
         if case["existing"]:
@@ -253,6 +262,7 @@ def check_incompatible(case, ctx: Ctx):
     finally:
         ctx.clean(work)
     ctx.record(case, True, ["incompatible", "inc-" + case["kind"], "existing-file" if case["existing"] else "new-file",
+                            "inc-inputs-in-one-file" if case.get("same_file") else "inc-inputs-in-own-files",
                             f"inc-n={case.get('n_inputs', 2)}", f"inc-pos={min(case.get('pos', 0), case.get('n_inputs', 2) - 1)}"])
 
 
